@@ -4,9 +4,16 @@ the generated table `Gen.sharedWrites` and by the `-race` differential run), the
 correspondence case, its outcome and the specification.
 
 Footprints, per operation kind (cells: 0 document, 1 routers, 2 `sliceUniqueItemsChecker`, 3 an object-valued
-`default` stored in the document, 10+2p compiled pattern p, 11+2t type info of Go type t):
+`default` stored in the document, 10+3p compiled pattern p, 11+3t type info of Go type t, 12+3(64i+j) element j of the
+backing array of `PathItem.Parameters` of path item i — `decodedCap n` of them exist for n declared parameters):
 
   FindRoute (gorillamux / legacy)   read doc, read router
+  ValidateRequest                   ranges over the path-level parameters of its path item (reads of the slice's
+                                    elements), then over the operation's own parameters (document reads). The two loops
+                                    are separate; a merged loop over `append(pathItemParameters, operationParameters...)`
+                                    would STORE the operation's parameters in the path item's backing array whenever the
+                                    decoded slice has spare capacity (3, 5-7, 9-15 … parameters): `appendActs`,
+                                    theorems `merged_parameter_loops_*`
   ValidateRequest / ValidateResponse / VisitJSON
                                     read doc (+ router); per `pattern` keyword reached: cacheUse of the process-wide
                                     pattern cache, keyed by pattern text (the cached matcher is used if there is one,
@@ -22,6 +29,7 @@ Footprints, per operation kind (cells: 0 document, 1 routers, 2 `sliceUniqueItem
                                     cycle detection by pointer could see two: F-C15-2, now a regression theorem)
 -/
 import KinModel.Conc
+import KinModel.ConcSlice
 namespace KinModel.Conc
 
 inductive OpKind | frg | frl | vreq | vresp | visit | gen
@@ -37,14 +45,21 @@ structure OpM where
   genType : Nat := 0
   recursive : Bool := false      -- the Go type handed to the generator refers to itself
   dialect : Nat := 0             -- per-call regex compiler (Options.RegexCompiler / SetSchemaRegexCompiler): 0 = default
+  item : Nat := 0                -- the path item the operation belongs to (operations under one path share it)
+  itemParams : Nat := 0          -- number of path-level parameters of that path item
+  ownParams : Nat := 0           -- number of the operation's own parameters
   deriving DecidableEq, Repr
 
 def docCell : Cell := 0
 def routerCell : Cell := 1
 def uniqCell : Cell := 2
 def dfltCell : Cell := 3
-def patCell (p : Nat) : Cell := 10 + 2 * p
-def typeCell (t : Nat) : Cell := 11 + 2 * t
+def patCell (p : Nat) : Cell := 10 + 3 * p
+def typeCell (t : Nat) : Cell := 11 + 3 * t
+def sliceCell (i j : Nat) : Cell := 12 + 3 * (64 * i + j)
+
+/-- `PathItem.Parameters` of path item `i` with `n` declared parameters, as encoding/json leaves it -/
+def itemHdr (n : Nat) : Hdr := ⟨n, decodedCap n⟩
 
 def usesRouter : OpKind → Bool
   | .frg | .frl | .vreq | .vresp => true
@@ -59,6 +74,8 @@ def validates : OpKind → Bool
 def opActs (_tid : Nat) (o : OpM) : List Act :=
   [Act.read docCell] ++
   (if usesRouter o.kind then [Act.read routerCell] else []) ++
+  -- ValidateRequest: `for _, parameterRef := range pathItemParameters` (the operation's own parameters: document reads)
+  (if o.kind = .vreq then rangeActs (sliceCell o.item) o.itemParams else []) ++
   -- visitJSONString USES the matcher the process-wide cache holds for the pattern TEXT, else compiles with the
   -- call's own regex compiler; `compilePattern` never fills the cache (CompareAndSwap(pattern, nil, cp))
   (if validates o.kind then o.patterns.map (fun p => Act.cacheUse (patCell p) (1 + o.dialect)) else []) ++
